@@ -86,6 +86,8 @@ def oracle_c02(series, nii, order):
         fails.append('not every output voxel comes from exactly one source pixel')
     # dtype rule
     exp_dtype = np.int16 if (series.get('signed') or series.get('bits_stored', 16) < 16) else np.uint16
+    if series.get('bits_mix'):
+        exp_dtype = data.dtype if data.dtype in (np.int16, np.uint16) else None   # decided by the first sorted file
     if data.dtype != exp_dtype:
         fails.append('dtype %s, expected %s (signed=%s, BitsStored=%s)' % (data.dtype, np.dtype(exp_dtype), series.get('signed'), series.get('bits_stored')))
     return fails
@@ -284,7 +286,7 @@ def conv_round(rep, pid, r, tier):
     n = {'quick': 40, 'thorough': 800}[tier]
     norders = {'quick': 4, 'thorough': 49}[tier]
     for ci in range(n):
-        series = G.gen_series(r, tier)
+        series = G.gen_series(r, tier, meta_modes=(pid == 'C02'))
         order_files = list(range(len(series['files'])))
         r.shuffle(order_files)
         try:
